@@ -1848,3 +1848,100 @@ def _justify(cls, vals, recv, how, sh, comps, touched) -> Optional[str]:
 
 
 RULES['X3c'] = X3c
+
+
+# ====================================================================== X15
+_X15_CONTROL = """
+def bad(children):
+    metadata = {}
+    for key, value in children:
+        if key in metadata:
+            raise E(key, pid=metadata['id'])
+        metadata[key] = value
+    return metadata
+
+def good(children):
+    metadata = {}
+    for key, value in children:
+        metadata[key] = value
+    if 'id' in metadata:
+        return metadata['id']
+    return metadata.get('title')
+"""
+
+
+def _x15_scan(fn: ast.AST) -> Tuple[int, List[Tuple[str, str, int]]]:
+    """(subscript reads of local mappings with a constant key, [(mapping, key, line)] of those no test establishes):
+    `d['k']` where d is a mapping built in this function with computed keys raises KeyError unless `'k' in d` is
+    tested, d['k'] was stored under the constant key, or a KeyError handler encloses the read."""
+    local_maps: Set[str] = set()
+    for n in ast.walk(fn):
+        tgt, val, ann = None, None, None
+        if isinstance(n, ast.Assign) and len(n.targets) == 1 and isinstance(n.targets[0], ast.Name):
+            tgt, val = n.targets[0].id, n.value
+        elif isinstance(n, ast.AnnAssign) and isinstance(n.target, ast.Name) and n.value is not None:
+            tgt, val = n.target.id, n.value
+        if tgt is None:
+            continue
+        if isinstance(val, (ast.Dict, ast.DictComp)) or (isinstance(val, ast.Call) and isinstance(val.func, ast.Name) and val.func.id in ('dict', 'OrderedDict', 'defaultdict')):
+            if not (isinstance(val, ast.Call) and val.func.id == 'defaultdict'):
+                local_maps.add(tgt)
+    established: Set[Tuple[str, object]] = set()
+    for n in ast.walk(fn):
+        if isinstance(n, ast.Compare) and len(n.ops) == 1 and isinstance(n.ops[0], (ast.In, ast.NotIn)) and isinstance(n.left, ast.Constant) and isinstance(n.comparators[0], ast.Name):
+            established.add((n.comparators[0].id, n.left.value))
+        if isinstance(n, ast.Subscript) and isinstance(n.ctx, ast.Store) and isinstance(n.value, ast.Name) and isinstance(n.slice, ast.Constant):
+            established.add((n.value.id, n.slice.value))
+        if isinstance(n, ast.Dict) or isinstance(n, ast.Assign):
+            pass
+    # constant keys of a dict display assigned to the name
+    for n in ast.walk(fn):
+        if isinstance(n, (ast.Assign, ast.AnnAssign)) and isinstance(getattr(n, 'value', None), ast.Dict):
+            t = n.targets[0] if isinstance(n, ast.Assign) else n.target
+            if isinstance(t, ast.Name):
+                for k in n.value.keys:
+                    if isinstance(k, ast.Constant):
+                        established.add((t.id, k.value))
+    guarded_lines: Set[int] = set()
+    for n in ast.walk(fn):
+        if isinstance(n, ast.Try) and any(h.type is None or any(isinstance(x, ast.Name) and x.id in ('KeyError', 'LookupError', 'Exception') for x in ast.walk(h.type)) for h in n.handlers):
+            for b in n.body:
+                for x in ast.walk(b):
+                    if hasattr(x, 'lineno'):
+                        guarded_lines.add(x.lineno)
+    reads, bad = 0, []
+    for n in ast.walk(fn):
+        if isinstance(n, ast.Subscript) and isinstance(n.ctx, ast.Load) and isinstance(n.value, ast.Name) and n.value.id in local_maps and isinstance(n.slice, ast.Constant):
+            reads += 1
+            if (n.value.id, n.slice.value) not in established and n.lineno not in guarded_lines:
+                bad.append((n.value.id, repr(n.slice.value), n.lineno))
+    return reads, bad
+
+
+def X15(ctx: Ctx) -> RuleResult:
+    r = RuleResult('X15', 'no parser function reads a constant key of a mapping it fills with computed keys without testing for it: a KeyError would leave parse() instead of the documented errors')
+    ctl = {f.name: _x15_scan(f)[1] for f in ast.parse(_X15_CONTROL).body}
+    if not (len(ctl['bad']) == 1 and ctl['bad'][0][:2] == ('metadata', "'id'") and not ctl['good']):
+        raise AnalysisError('X15', f'control examples are not recognised any more: {ctl}')
+    nfun = reads = 0
+    for mname in ('hpl.parser', 'hpl.grammar', 'hpl.errors'):
+        mod = ctx.model.modules.get(mname)
+        if mod is None:
+            if mname == 'hpl.parser':
+                raise AnalysisError('X15', 'module hpl.parser not found (anchor vanished)')
+            continue
+        fis = list(mod.functions.values()) + [f for c in mod.classes.values() for f in c.methods.values()]
+        for fi in fis:
+            nfun += 1
+            k, bad = _x15_scan(fi.node)
+            reads += k
+            for name, key, line in bad:
+                r.fail(f'{fi.qualname}:{name}[{key}]', f'{fi.qualname} reads {name}[{key}] although nothing establishes that the key was stored: KeyError escapes the parser', f'{mod.relpath}:{line}')
+    r.counts['functions scanned'] = nfun
+    r.counts['constant-key reads of local mappings'] = reads
+    r.floor('functions scanned', nfun, 40)
+    r.ok("controls: metadata['id'] read in the duplicate branch reported; the tested / .get() forms silent")
+    return r
+
+
+RULES['X15'] = X15
